@@ -596,6 +596,7 @@ auto harris_michael_hash_map<Key, Value, Policies...>::do_get_or_emplace_lazy(Ke
     info.cur.reset();
     info.cur = guard_ptr(n);
     n->next.store(cur, std::memory_order_relaxed);
+    XENIUM_VERIF_POINT("harris_michael_hash_map.get_or_emplace_lazy.before_link_cas");
 
     // (9) - this release-CAS synchronizes with the acquire-load (1, 2, 3, 4, 5, 6, 7, 13)
     //       and the acquire-CAS (11, 14)
